@@ -39,5 +39,5 @@ func VerifH_C09_LoadIndexArbitrary() {
 	}
 	vCover("indexed-something", err == nil && len(rec.recs) > 0)
 	vCover("rejected", err != nil)
-	vCover("two-records", err == nil && len(rec.recs) == 2)
+	vCover("single-minimal-section", err == nil && len(rec.recs) == 1 && n < 6)
 }
